@@ -71,6 +71,69 @@ STRENGTHENED = {
  "C20/a": "C20 missed it (C06 caught it); sequence part (two datagrams on the same interfaces) and tx-buffer pre-fill polarities added",
 }
 
+NEEDS3 = {
+ "C01/a": "data segment with an OLD acknowledgment number is processed and rewinds SND.UNA: bidirectional data, two of the peer's data segments (ACK advancing between them) delivered in swapped order, victim sends more afterwards",
+ "C01/b": "checksum tail handling `>= 2` -> `> 2`: last octet of a 4n+2-octet buffer never summed; a bit flip confined to the last octet of such a segment is accepted",
+ "C03/a": "ACK covering only our SYN/FIN no longer repairs SND.NXT >= SND.UNA after an RTO whose retransmission could not be emitted (neighbor expired / device refused): late ACK of the SYN-ACK or FIN -> flight_size() panics in every later poll",
+ "C03/b": "icmp socket bound to Endpoint::Udp reads the quoted UDP source port without a length check: ICMPv6 error whose quotation ends 0 or 1 octets after the inner IPv6 header -> panic in poll",
+ "C04/a": "rx_fin_received set before the state match: a stray bare FIN (seq 0 or >= 2^31+1) to a LISTENING socket survives the later handshake; connection then ends by RST and recv reports Finished",
+ "C04/b": "last advertised ACK/window recorded BEFORE emit: the transmit carrying a window update fails (device refuses), the socket then accepts data beyond every window the peer was shown",
+ "C05/a": "peer's window field shifted by OUR window shift: both sides scale, local receive buffer > 64 KiB with a larger shift than the peer's, more queued data than the peer's real window",
+ "C05/b": "zero-window probe takes its sequence number from SND.UNA but its octet from SND.NXT: probe while data is in flight (shrinking window / partial ACK that closes the window)",
+ "C06/a": "IPHC buffer_len() decides source-address elision differently from emit(): short link-layer address equal to the low 16 bits of a non-ff:fe00 IID, or an extended address whose EUI-64 looks like a short-address IID",
+ "C06/b": "NDISC Router Advertisement: option cursor advanced by the unpadded option length: RouterAdvert + 8-octet (802.15.4) lladdr + MTU or prefix option",
+ "C06/extra-c": "NHC UDP header_len() uses the exclusive range 0xf0b0..0xf0bf: one port exactly 0xf0bf, the other in 0xf0b0..=0xf0bf",
+ "C07/a": "Ieee802154Frame::frame_counter() ignores the suppression bit for pre-2015 frames while check_len honours it: security enabled, version 2003/2006, suppression bit set, frame ends < 4 octets after the security control octet",
+ "C07/b": "Ipv6HopByHopRepr::parse collects into a heapless Vec: more than IPV6_HBH_MAX_OPTIONS (4) valid options -> 'Vec::from_iter overflow' panic",
+ "C08/a": "ICMPv4 receive check gated on the ipv4 capability: mixed ChecksumCapabilities (ipv4 rx off, icmpv4 rx on) and a corrupted ICMPv4 message",
+ "C08/b": "TCP burst-limit window clamp written after the checksum: device with max_burst_size and a socket offering a window above burst x MSS",
+ "C09/a": "UdpMetadata::local_address taken from the bound address: socket bound to (addr, port) receiving a broadcast / multicast datagram",
+ "C09/b": "enqueue_with_infallible advances the payload ring by max_size while the metadata records size: send_with() whose closure returns less than max_size, then further datagrams on the same socket",
+ "C10/a": "IPHC set_dst_address no longer clears the M bit (same mechanism as a round-2 C20 seed, found independently): fragmented multicast then fragmented unicast datagram on 802.15.4",
+ "C10/b": "TCP checksum gated on the UDP capability: device with tcp = Both but udp tx off",
+ "C11/a": "udp close() returns before the buffer resets: bind(P1), datagram queued unread, close(), bind(P2), recv() hands out the P1 datagram",
+ "C11/b": "dns: `dst_port != pq.port || txid != pq.txid` became `&&`: response with the right transaction id addressed to another UDP port of ours completes the query",
+ "C12/a": "PacketAssemblerSet::get() stops at the first free slot: REASSEMBLY_BUFFER_COUNT >= 2 and two interleaved datagrams (X.1 Y.1 X.2 Y.2)",
+ "C12/b": "fragmenter's destination MAC stored before the 'fragmentation buffer busy' check: fragments of D1 pending, a (dropped) fragmented reply to another neighbour B overwrites the MAC: D1's remaining fragments go to B",
+ "C13/a": "socket_egress `break` instead of `continue` for a socket in its neighbor-discovery silence: a later socket with queued data is never reached while poll_at stays 'now'",
+ "C13/b": "dhcp poll_at no longer clamped by expires_at: all renewals unanswered, rebind sent with < 60 s left -> deadline beyond the lease end, a poll in between transmits DISCOVER",
+ "C14/a": "enqueue_with_infallible head-gap test compares against the tail index: partly drained, unwrapped payload ring; closure interface; wrongly accepts and then panics slicing",
+ "C14/b": "RingBuffer::enqueue_one_with counts the slot before the callback answers: a declining callback enqueues a phantom element",
+ "C15/a": "early 'tracker full' refusal in add_then_remove_front: tracker at the maximum number of ranges and an insertion at offset > 0 that merges into existing ranges",
+ "C15/b": "bogus pass-through fast path: range pending at offset 0 (put there by plain add) and add_then_remove_front(0, n)",
+ "C16/a": "reset_expiry_if_existing no longer checks the frame's source MAC: a foreign station using the neighbor's IP source keeps a silent neighbor's entry alive beyond 60 s",
+ "C16/b": "ARP sender hardware address guard tests is_broadcast instead of !is_unicast: ARP packet whose sender hardware address is a non-broadcast group MAC",
+ "C17/a": "remote_last_ack updated before the zero-window-probe early return while remote_last_win is not: probe piggy-backing the ACK of fresh data moves the RST acceptance window beyond what was advertised",
+ "C17/b": "connect() resets the socket before the last argument checks: a refused connect() (local address of the other family) takes a TIME-WAIT socket to CLOSED",
+ "C18/a": "server T1/T2 validated against the uncapped lease: set_max_lease_duration(cap) and an ACK with explicit T1 and T2 >= cap -> no renewal before the (capped) expiry",
+ "C18/b": "rebinding REQUESTs do not update the expected xid: all renewals unanswered until T2, a stale ACK for the last renewal REQUEST is accepted",
+ "C19/a": "eq_names zips label iterators: a name that is a label-wise prefix or extension of the queried one matches",
+ "C19/b": "dns poll_at reports the first pending query's timer instead of the earliest: two concurrent queries with staggered starts",
+ "C20/a": "PacketAssemblerSet::get() stops at the first free slot (6LoWPAN side of the same change as C12/a): >= 2 reassembly buffers and interleaved fragments of two datagrams",
+ "C20/b": "IPHC 32-bit multicast form chosen although octet 12 is non-zero: destination such as ff35::8000:1234",
+}
+
+STRENGTHENED3 = {
+ "C03/a": "C03 missed it; caught by C02 after tcp2 gained `BlockedTick` (device refuses frames at a timer instant); C03 catalogue extension requested",
+ "C03/b": "C03 and C07 missed it at first; see DESIGN.md for the catalogue extension (well-formed ICMP errors with every quotation length)",
+ "C04/a": "C04 missed it; receiver harness gained stray pre-handshake segments and a peer RST event",
+ "C04/b": "C04 missed it; receiver harness gained reads whose window update is refused by the device",
+ "C05/a": "C05 missed it; sender harness gained configurations with our shift above the peer's and more data than the peer's largest window",
+ "C06/a": "C06 missed it; link-layer addresses derived from the IP address added",
+ "C08/b": "C08 and C10 missed it; burst-limited devices added to tcp2 (C01/C02/C05/C10/C13), to C10's tcp configurations and to C08 part (b)",
+ "C09/a": "C09 missed it; see DESIGN.md",
+ "C10/a": "C10 missed it (C20 caught it); see DESIGN.md",
+ "C11/a": "C11 cannot see it (needs a bind/close/bind history); caught by C09",
+ "C12/b": "C12 missed it; second neighbour, link-layer destination clause and sweep S1d added",
+ "C17/a": "C17 missed it; `rst-window-zwp` configuration (delayed ACKs on, clock advancing without a poll, only RST-caused transitions judged)",
+ "C17/b": "C17 missed it; refused listen()/connect() calls added to the API alphabet",
+ "C18/a": "C18 missed it; weak renew clause judged in the max-lease configurations, spelled-out T1/T2 values",
+ "C19/b": "C19 and C13 missed it; C13 gained the two-query DNS alphabet with a reachable server, C19 staggered starts and a per-query schedule clause",
+ "C20/b": "C20 and C06 missed it; one multicast group per first-non-zero octet position",
+ "C01/b": "C01 missed it (C08 caught it); tcp2 gained corruption of the last octet and a configuration with segment lengths of every residue mod 4",
+ "C06/extra-c": "C20 missed it (C06 caught it); port boundary values added to C20",
+}
+
 def next_letter(prop, used):
     for c in "abcdefghijklmnopqrstuvwxyz":
         if f"{prop}-{c}" not in used:
@@ -78,6 +141,10 @@ def next_letter(prop, used):
     raise SystemExit("no letter left")
 
 def main():
+    global NEEDS, STRENGTHENED
+    rnd = int(sys.argv[1]) if len(sys.argv) > 1 else 2
+    if rnd == 3:
+        NEEDS, STRENGTHENED = NEEDS3, STRENGTHENED3
     used = {os.path.basename(d) for d in glob.glob('/verif/seeded/*')}
     # seeds already stored by this script (origin_path recorded) are updated in place
     have = {}
@@ -87,12 +154,23 @@ def main():
             have[j['origin_path']] = j['id']
     for key in sorted(NEEDS):
         prop, s = key.split('/')
-        src = f"/tmp/seed/r2-out-{prop}/{s}"
-        out = f"/tmp/matrix/{prop}-{s}.out"
-        if not (os.path.exists(src + "/patch.diff") and os.path.exists(out)):
+        src = f"/tmp/seed/r{rnd}-out-{prop}/{s}"
+        outs = [f"/tmp/matrix/{prop}-{s}.out"] if rnd == 2 else [f"/tmp/matrix/r3-{prop}-{s}.out", f"/tmp/matrix/r3b-{prop}-{s}.out", f"/tmp/matrix/r3c-{prop}-{s}.out"]
+        outs = [o for o in outs if os.path.exists(o)]
+        if not (os.path.exists(src + "/patch.diff") and outs):
             print("skip", key, "(no patch or no matrix result)")
             continue
-        lines = open(out).read().splitlines()
+        # later files override earlier results of the same check
+        per = {}
+        other = []
+        for o in outs:
+            for l in open(o).read().splitlines():
+                m = re.match(r"SEED \S+: check (C\d+) ", l)
+                if m:
+                    per[m.group(1)] = l
+                elif "does not apply" in l or "build failed" in l:
+                    other.append(l)
+        lines = list(per.values()) + (other if not per else [])
         det, sigs, runs = [], [], []
         bad = False
         for l in lines:
@@ -100,11 +178,14 @@ def main():
             if m:
                 cid, tier, rc, sg = m.group(1), m.group(2), int(m.group(3)), (m.group(4) or "").strip()
                 runs.append(f"mc {cid} --tier {tier} (harness crate built against the seeded tree via tools/seedtest.sh): exit {rc}")
-                if rc == 1:
+                if rc == 1 or (rc == 2 and sg):
+                    # exit 2 with signatures: violations were reported AND preparatory steps of the
+                    # harness failed on the broken tree (machinery errors) - still a detection
                     det.append(cid)
                     sigs.append(f"{cid}: " + ", ".join(sg.split()[:6]) + (" ..." if len(sg.split()) > 6 else ""))
                 elif rc != 0:
                     bad = True
+
             elif "does not apply" in l or "build failed" in l:
                 bad = True
         if bad:
@@ -120,7 +201,7 @@ def main():
             if os.path.exists(f"{src}/{f}"):
                 shutil.copy(f"{src}/{f}", f"{d}/{f}")
         meta = {
-            "id": sid, "property": prop, "breaks": prop, "round": 2, "origin_path": src,
+            "id": sid, "property": prop, "breaks": prop, "round": rnd, "origin_path": src,
             "needs_to_manifest": NEEDS[key],
             "confirmed": "tools/seedtest.sh: applies to /repo HEAD in a scratch worktree; cargo nextest: 673/673 pass with the change; demo_test.rs passes without and fails with the change",
             "checks_run": runs, "detected_by": det, "signatures": "; ".join(sigs),
